@@ -44,13 +44,13 @@ pub fn build(cfg: &Cfg, r: &mut Rng) -> Result<World, String> {
     // cw20-base rejects duplicates / non-normalised addresses: retry a few times so that most worlds get built,
     // the rejected instantiate messages are part of the exploration too
     for _ in 0..6 {
-        let o = WorldOpts { bsei_initial: initial(r, &us), stsei_initial: initial(r, &us), reward_is_dummy: true, skip_registry: false };
+        let o = WorldOpts { bsei_initial: initial(r, &us), stsei_initial: initial(r, &us), reward_is_dummy: true, ..Default::default() };
         match build_world_with(cfg, &o) {
             Ok(w) => return Ok(w),
             Err(_) => continue,
         }
     }
-    build_world_with(cfg, &WorldOpts { bsei_initial: initial(r, &us), stsei_initial: vec![], reward_is_dummy: true, skip_registry: false })
+    build_world_with(cfg, &WorldOpts { bsei_initial: initial(r, &us), stsei_initial: vec![], reward_is_dummy: true, ..Default::default() })
 }
 
 pub fn steer(r: &mut Rng, s: &Snap, cfg: &Cfg, _g: &mut GenState, _w: &World) -> Option<Op> {
